@@ -165,6 +165,20 @@ func (c *Conn) Unread(d int) int {
 	return len(c.dir[d].recv)
 }
 
+// ReaderWaiting reports whether a goroutine is blocked reading at the given side.
+func (c *Conn) ReaderWaiting(side int) bool {
+	c.mu.Lock()
+	defer c.mu.Unlock()
+	return len(c.dir[1-side].waiters) > 0
+}
+
+// Delivered returns how many bytes of a direction have been delivered so far.
+func (c *Conn) Delivered(d int) int {
+	c.mu.Lock()
+	defer c.mu.Unlock()
+	return len(c.Capture[d])
+}
+
 // Closed reports whether the given side has closed.
 func (c *Conn) Closed(side int) bool {
 	c.mu.Lock()
